@@ -416,7 +416,10 @@ fn run_impl(c: &Case) -> (Ran, Sweeps) {
         })));
     }
     type R = (Result<Option<(Vec<usize>, Vec<usize>)>, String>, Vec<usize>);
-    let res: Caught<R> = catch_timeout(20, move || {
+    // the property's watchdog is 20 s; `C02_WATCHDOG` only serves to tell a slow run from a hang when
+    // a finding is examined by hand
+    let secs = std::env::var("C02_WATCHDOG").ok().and_then(|v| v.parse().ok()).unwrap_or(20u64);
+    let res: Caught<R> = catch_timeout(secs, move || {
         let threads = match &c {
             Case::Vn { threads, .. }
             | Case::Kl { threads, .. }
@@ -682,6 +685,11 @@ pub fn run_op(ctx: &mut Ctx, op: &str) {
             }
         ));
     }
+    if let Case::KMeans { .. } = c {
+        // the K5 situation: after some sweep a centre id owns no point
+        let emptied = sweeps.iter().any(|(a, cids)| cids.iter().any(|cid| !a.contains(cid)));
+        ctx.count(if emptied { "kmeans:some-cluster-emptied" } else { "kmeans:no-cluster-emptied" });
+    }
     let out = match &ran {
         Ran::Ok(ids, md) => {
             if let Some((mv, rw)) = md {
@@ -733,7 +741,7 @@ pub fn run_op(ctx: &mut Ctx, op: &str) {
             } else {
                 ctx.count(&format!("{}:unchanged", algo));
             }
-            format!("ok {}", join(ids))
+            format!("ok {}", join(ids)).trim_end().to_string()
         }
         Ran::Err(e) => {
             verdict = Some((format!("unexpected-error@{}", algo), format!("Err({}) on an input inside the contract", e)));
@@ -1003,10 +1011,10 @@ fn gen_fm(ctx: &mut Ctx) -> Case {
     Case::Fm { threads: threads_of(ctx), f64w: ctx.rng.chance(1, 3), mi, mb, mp, mm, rows, ids, ws }
 }
 
-fn gen_arcswap(ctx: &mut Ctx) -> Case {
+fn gen_arcswap(ctx: &mut Ctx, large: bool) -> Case {
     let k = 2 + ctx.rng.usize(7);
     let span = if ctx.rng.chance(1, 4) { 2 } else { 40 };
-    let n = k + ctx.rng.usize(span);
+    let n = if large { 150 + ctx.rng.usize(350) } else { k + ctx.rng.usize(span) };
     let (ids, im) = gen_valid_ids(ctx, n, k);
     let (rows, shape) = gen_graph(ctx, n);
     let (ws, wm) = gen_weights(ctx, n);
@@ -1019,11 +1027,11 @@ fn gen_arcswap(ctx: &mut Ctx) -> Case {
     Case::ArcSwap { threads: threads_of(ctx), f64w: ctx.rng.chance(1, 3), mi, rows, ids, ws }
 }
 
-fn gen_kmeans(ctx: &mut Ctx) -> Case {
+fn gen_kmeans(ctx: &mut Ctx, large: bool) -> Case {
     let dim = 2 + ctx.rng.usize(2);
     let k = 2 + ctx.rng.usize(7);
     let span = if ctx.rng.chance(1, 4) { 2 } else { 40 };
-    let n = k + ctx.rng.usize(span);
+    let n = if large { 300 + ctx.rng.usize(300) } else { k + ctx.rng.usize(span) };
     let (ids, im) = gen_valid_ids(ctx, n, k);
     let (pm, coords): (&str, Vec<i64>) = match ctx.rng.usize(7) {
         0 => ("pts:uniform", (0..n * dim).map(|_| ctx.rng.range(0, 1023)).collect()),
@@ -1085,7 +1093,7 @@ fn gen_kmeans(ctx: &mut Ctx) -> Case {
         _ => ("pts:wide", (0..n * dim).map(|_| ctx.rng.range(-1_000_000_000, 1_000_000_000)).collect()),
     };
     let (ws, wm) = gen_weights(ctx, n);
-    let max_iter = *ctx.rng.pick(&[0usize, 1, 5, 5, 500]);
+    let max_iter = if large { *ctx.rng.pick(&[5usize, 50]) } else { *ctx.rng.pick(&[0usize, 1, 5, 5, 500]) };
     let max_balance_iter = 1 + ctx.rng.usize(3);
     let tol = *ctx.rng.pick(&[0.0f64, 0.5, 5.0, 1e9]);
     let delta = *ctx.rng.pick(&[0.0f64, 0.01, 1.0, 1e9]);
@@ -1214,7 +1222,7 @@ pub fn generate(ctx: &mut Ctx) {
         ctx.budget(5, 6)
     ));
     // (2) random, valid inputs, all six ------------------------------------------------------
-    let per = ctx.budget(250, 6000);
+    let per = ctx.budget(1000, 10000);
     for _ in 0..per {
         let c = gen_vn(ctx, true);
         run_op(ctx, &format_op(&c));
@@ -1224,16 +1232,25 @@ pub fn generate(ctx: &mut Ctx) {
         run_op(ctx, &format_op(&c));
         let c = gen_fm(ctx);
         run_op(ctx, &format_op(&c));
-        let c = gen_arcswap(ctx);
+        let c = gen_arcswap(ctx, false);
         run_op(ctx, &format_op(&c));
-        let c = gen_kmeans(ctx);
+        let c = gen_kmeans(ctx, false);
+        run_op(ctx, &format_op(&c));
+    }
+    // (2b) larger inputs for the two parallel algorithms (real concurrency in ArcSwap, many sweeps
+    //      and emptied clusters in KMeans)
+    for _ in 0..ctx.budget(12, 150) {
+        ctx.count("stream:large");
+        let c = gen_arcswap(ctx, true);
+        run_op(ctx, &format_op(&c));
+        let c = gen_kmeans(ctx, true);
         run_op(ctx, &format_op(&c));
     }
     // (3) a small stream outside the contract (the models' abort paths; no oracle) -----------
     for _ in 0..ctx.budget(20, 200) {
         // KMeans on a partition with an unused id
         if let Case::KMeans { dim, threads, tol, delta, max_iter, max_balance_iter, erode, mbr, mut ids, coords, ws } =
-            gen_kmeans(ctx)
+            gen_kmeans(ctx, false)
         {
             let m = *ids.iter().max().unwrap();
             let hole = ctx.rng.usize(m);
